@@ -48,7 +48,7 @@ ENGINE = "E2-BFS"
 SHARDS = {"quick": 4, "thorough": 16}
 TECHNIQUE = "explicit-state BFS over request scripts x client view operations on the real client view and real sticky middleware, compared after every response with a spec-derived lifecycle model and a model-free no-orphan invariant"
 RULE = (
-    "BFS depth 4 (quick, 1 view, 7 in-view scripts, 2 plain scripts) / depth 6 (thorough, 2 concurrent views, 13 scripts, detach/resume) "
+    "BFS over 2 concurrent client views, depth 4 (quick, 7 in-view scripts, 2 plain scripts) / depth 6 (thorough, 13 in-view scripts, + detach/resume) "
     "over in/out/enter/exit/drain events; after every event: registry vs view tokens vs model; plus the VGI-Session-Accept value matrix "
     "(10 values x draining x token); non-trivial class = (event kind, script, draining, session bound at entry, observed outcome)"
 )
@@ -422,7 +422,7 @@ def c_brief(o: dict[str, Any]) -> str:
 
 def run(ctx: Ctx) -> None:
     ctx.extra.update({"exit_left_live_session": 0, "accept_matrix_cases": 0})
-    nviews = 1 if ctx.quick else 2
+    nviews = 2
     depth = 4 if ctx.quick else 6
     st = B.bfs(ctx, make_build(nviews), make_enabled(ctx.tier, nviews), lambda w: w.canon(), make_invariant(ctx), max_depth=depth, label="c27")
     ctx.extra["max_depth_reached"] = st["max_depth"]
@@ -441,7 +441,7 @@ def replay(ctx: Ctx, case: dict[str, Any]) -> None:
         accept_case(ctx, case["accept"], case["draining"], case["with_token"])
         return
     tier = case.get("tier", "quick")
-    nviews = 1 if tier == "quick" else 2
+    nviews = 2
     hist = tuple(tuple(e) for e in case["history"])
     w = make_build(nviews)(hist)
     for key, msg in w.findings:
